@@ -124,6 +124,8 @@ CONFIG_TRUST = [
 
 def sig_c15(rec):
     case = rec.get("case") or {}
+    if rec.get("family") == "rewrite":
+        return "rewrite:%s %s" % ("|".join(case.get("rules") or []), case.get("path"))
     return "proxy:%s %s?%s [%s] %s" % (case.get("method"), case.get("path"), case.get("query"), case.get("label"), "|".join(case.get("client_headers") or []))[:200]
 
 
@@ -146,11 +148,12 @@ PROPS = {
         "explanation": "level legality for all configured values; dispatch; LZ4 expansion bound and completeness of the repaired decoder on every valid block.",
     },
     "C15": {
-        "families": {"proxy": {"quick": 400, "thorough": 8000, "search": 2000}},
+        "families": {"proxy": {"quick": 400, "thorough": 8000, "search": 2000},
+                     "rewrite": {"quick": 600, "thorough": 20000, "search": 3000}},
         "signature": sig_c15,
         "trusted_base": [
             "model coq/Model/Proxy.v is hand-written from server/proxy.go (NewProxy) and location.go (AddRequestHeader/AddResponseHeader/AddQuery); tied by the proxy family (real middleware, real elton proxy + net/http transport, recording origin)",
-            "the location's path rewriter (user regular expressions) is a Section variable: its image is observed and passed to the model; hop-by-hop stripping, X-Forwarded-For, User-Agent suppression, transport-added Accept-Encoding and URL retargeting are httputil.ReverseProxy / net/http behaviour outside the projection",
+            "the location's path rewriter is modelled (coq/Model/Rewrite.v: backtracking matcher for literal bytes and * wildcards, strings.Replacer for $d tokens) for patterns whose literal bytes are not regexp metacharacters, tied by the rewrite family; for the proxy family and for other patterns its image is a Section variable (observed and passed to the model); hop-by-hop stripping, X-Forwarded-For, User-Agent suppression, transport-added Accept-Encoding and URL retargeting are httputil.ReverseProxy / net/http behaviour outside the projection",
             "the origin answers 304/206/412 only to requests carrying the corresponding conditional or Range header (hypothesis of never_store_partial; the harness origin is http.ServeContent)",
         ],
         "assumptions": ["the location does not itself add conditional or Range request headers"],
